@@ -31,12 +31,18 @@ def run(m, rep, tier):
         check_insert(m, f, p1)
 
     p2 = rep.rule('P2', 'erase: by-iterator only for a found entry, 0 / -1, iterator detached; unlink then free once', floor=2)
-    f = m.pfn('cstl_map_erase')
-    if f is None:
+    # map.c with its private helpers inlined, except the lookups and the iterator builders (recognised by effect): "unlink and release the node" may
+    # be a helper shared by erase and erase-by-iterator
+    pm = m.plain.get('map')
+    fmod = m.focus('map', {g.name for g in pm.defined() if _map_finder(m, g.name) or _iter_builder(m, g.name) is not None}) if pm is not None else None
+    f = fmod.fn('cstl_map_erase') if fmod is not None else None
+    if f is None or f.decl:
         p2.undecided('cstl_map_erase', 'not in the model')
     else:
         check_erase(m, f, p2)
-    f = m.pfn('cstl_map_erase_iterator')
+    f = fmod.fn('cstl_map_erase_iterator') if fmod is not None else None
+    if f is not None and f.decl:
+        f = None
     if f is None:
         p2.undecided('cstl_map_erase_iterator', 'not in the model')
     else:
@@ -81,6 +87,11 @@ def run(m, rep, tier):
 
     p5 = rep.rule('P5', 'map clear: detached iterator, node freed after the callback on every path', floor=1)
     c15.check_map_adapter(m, p5, rep.rule('P5b', 'map clear: one callback site, one free per node', floor=1))
+
+    # ---- P7: the NDEBUG build does what the assertion build does ---------------------------------
+    from .util import check_assert_effects
+    _ae = rep.rule('P7', 'every store / effectful call made with assertions enabled is also made by the NDEBUG build (no work inside assert())', floor=1)
+    check_assert_effects(m, _ae, ('map.c', 'map.h'))
 
 
 def _callee_allocates(m, name):
